@@ -112,7 +112,7 @@ func vHavocCount(text string) int {
 //symgo:redirect github.com/tsawler/tabula/rag.countWords vHavocCount
 //symgo:redirect github.com/tsawler/tabula/rag.countSentences vHavocCount
 //symgo:redirect github.com/tsawler/tabula/rag.countParagraphs vHavocCount
-//symgo:desc text of 260 quick / 420 thorough bytes: every 50th byte is a space; bytes at i%25==24 symbolic over {a, space}; all others symbolic over {a, '.'} (quick) or {a, '.', newline} (thorough); word/sentence/paragraph counters havoc'd; Max = 200 characters, 50 tokens at TokensPerChar 0.25 or 100 tokens at TokensPerChar 0.5 (enumerated), hard: every piece has at most 200 bytes / 50 estimated tokens
+//symgo:desc text of 260 quick / 420 thorough bytes: every 50th byte is a space; bytes at i%25==24 symbolic over {a, space}; all others symbolic over {a, '.'} (quick) or {a, '.', newline} (thorough); word/sentence/paragraph counters havoc'd; Max = 200 characters, 50 tokens at TokensPerChar 0.25, 100 tokens at TokensPerChar 0.5, or 50 tokens with TokensPerChar left 0 = default (enumerated), hard: every piece has at most 200 bytes / 50 estimated tokens
 func H_C13_hard_max() {
 	n := 260
 	if vTier() > 0 {
@@ -136,10 +136,14 @@ func H_C13_hard_max() {
 	tokens := vAnyIntIn(0, 1) == 1
 	if tokens {
 		cfg.Max = SizeLimit{Value: 50, Unit: SizeUnitTokens, Type: LimitTypeHard}
-		if vAnyIntIn(0, 1) == 1 {
+		switch vAnyIntIn(0, 2) {
+		case 1:
 			// a denser token estimate (2 bytes per token): the same 200-byte ceiling, spelled as 100 tokens
 			cfg.TokensPerChar = 0.5
 			cfg.Max.Value = 100
+		case 2:
+			// a configuration written as a literal leaves the ratio unset: the documented default 0.25 applies
+			cfg.TokensPerChar = 0
 		}
 	} else {
 		cfg.Max = SizeLimit{Value: 200, Unit: SizeUnitCharacters, Type: LimitTypeHard}
@@ -234,5 +238,35 @@ func H_C13_split_with_boundaries() {
 		joined = append(joined, vNonWS(p)...)
 	}
 	vAssert("non-whitespace-conserved", string(joined) == string(vNonWS(text)))
+	vReach("end")
+}
+
+// H_C02_sentence_splitting_never_panics: the sentence splitter behind the Chunker's oversized-paragraph path returns
+// for every text; nothing is lost.
+//
+//symgo:harness prop=C02 kernel=rag.splitIntoSentences
+//symgo:desc all strings of 1..5 (quick) / 1..6 (thorough) bytes over the alphabet {'.', '!', 'A', 'a', ' '} (covers "Ph.D."-shaped abbreviations: a sentence end followed by a capital and another full stop): splitIntoSentences returns without a run-time panic and the sentences joined contain every non-space byte of the input in order
+func H_C02_sentence_splitting_never_panics() {
+	n := vAnyIntIn(1, 5+vTier())
+	b := make([]byte, n)
+	for i := range b {
+		b[i] = vAnyByteOf(".!Aa ")
+	}
+	parts := splitIntoSentences(string(b))
+	var got []byte
+	for _, p := range parts {
+		for i := 0; i < len(p); i++ {
+			if p[i] != ' ' {
+				got = append(got, p[i])
+			}
+		}
+	}
+	var want []byte
+	for _, c := range b {
+		if c != ' ' {
+			want = append(want, c)
+		}
+	}
+	vAssert("nothing-lost", string(got) == string(want))
 	vReach("end")
 }
